@@ -113,6 +113,13 @@ pub fn run(ctx: &mut Ctx) {
         }
         let prepared = PreparedCoseSign1::new(mk_builder(attached), if attached { None } else { Some(&payload) }, aad.as_deref(), tagged).unwrap();
         let tbs = prepared.signature_payload().to_vec();
+        // a prepared signature stored and loaded again before signing (the holder's wallet persists its session mid-signing)
+        // still asks for the same bytes to be signed, and finalises to the same structure
+        { let stored = cbor::to_vec(&prepared).unwrap();
+          let restored: Result<PreparedCoseSign1, _> = cbor::from_slice(&stored);
+          let same = match &restored { Ok(p2) => p2.signature_payload() == tbs.as_slice() && cbor::to_vec(p2).ok().as_deref() == Some(stored.as_slice()), Err(_) => false };
+          ctx.emit.line("spec", "spec:sign1:stored-prepared-keeps-tbs", format!("spec.eq {} true", same), "true".into(),
+              serde_json::json!({"attached": attached, "aad": opt_hex(&aad), "payload_len": payload.len(), "msg_hex": format!("stored{k}")})); }
         let sig: Signature = sk.sign(&tbs);
         let cose = prepared.finalize(sig.to_vec());
         let prot = protected_of(&cose);
@@ -167,6 +174,11 @@ pub fn run(ctx: &mut Ctx) {
         let mb = |att: bool| { let b = CoseMac0Builder::new().protected(mh.clone()); if att { b.payload(payload.clone()) } else { b } };
         let prepared = PreparedCoseMac0::new(mb(attached), if attached { None } else { Some(&payload) }, aad.as_deref(), tagged).unwrap();
         let tbs = prepared.signature_payload().to_vec();
+        { let stored = cbor::to_vec(&prepared).unwrap();
+          let restored: Result<PreparedCoseMac0, _> = cbor::from_slice(&stored);
+          let same = match &restored { Ok(p2) => p2.signature_payload() == tbs.as_slice() && cbor::to_vec(p2).ok().as_deref() == Some(stored.as_slice()), Err(_) => false };
+          ctx.emit.line("spec", "spec:mac0:stored-prepared-keeps-tbs", format!("spec.eq {} true", same), "true".into(),
+              serde_json::json!({"attached": attached, "aad": opt_hex(&aad), "payload_len": payload.len(), "msg_hex": format!("mstored{k}")})); }
         let mut mac = Hmac::<Sha256>::new_from_slice(&mkey).unwrap(); mac.update(&tbs);
         let tag = mac.finalize().into_bytes().to_vec();
         let mcose = prepared.finalize(tag.clone());
